@@ -99,8 +99,17 @@ class CLoop:
         self.cont = False
 
 
+class Found(Exception):
+    """raised when a safety event has been shown reachable (solver: sat) and the run was asked to stop at the first one"""
+
+    def __init__(self, event, model):
+        Exception.__init__(self, repr(event))
+        self.event, self.model = event, model
+
+
 class CRun:
-    def __init__(self, mod, hyps=None, loop_cap=4096, prefix="c"):
+    def __init__(self, mod, hyps=None, loop_cap=4096, prefix="c", stop_on=()):
+        self.stop_on = set(stop_on)
         self.mod = mod if isinstance(mod, CModule) else cmodule(mod)
         self.events = []
         self.assumptions = []
@@ -130,14 +139,18 @@ class CRun:
         self._solver.push()
         self._solver.add(c)
         r = str(self._solver.check())
+        self._last = (r, self._solver.model() if r == "sat" else None)
         self._solver.pop()
         return r != "unsat"
 
     def event(self, kind, cond, where, guard):
         c = and_(guard, cond)
+        self._last = ("sat", None) if c is True else ("?", None)
         if c is False or not self.feasible(c):
             return
         self.events.append(Event(kind, c, where))
+        if kind in self.stop_on and self._last[0] == "sat":
+            raise Found(self.events[-1], self._last[1])
         self.dead = or_(self.dead, c)
 
     def ok(self):
